@@ -17,6 +17,9 @@ checks = {
  "C02": ("model_checking", "explicit-state search over operation sequences (sign by several identities / re-serialise / edit unsigned / foreign signature) up to a depth bound on generated objects, every transition executed on the real SignJSON/VerifyJSON/ListKeyIDs and compared with reference ed25519 signatures; every single-member mutation of every distinct reached state must fail",
          "All operation sequences up to the bound from all start objects are executed on the real code; states are deduplicated by exact text; the oracle is exact (deterministic ed25519 over the reference canonical form).",
          "ed25519 trusted; objects limited to the member menu", "4/C02"),
+ "C03": ("model_checking", "bounded-exhaustive proto-event alphabet x all room versions built with the real EventBuilder; explicit-state search over edit sequences (SetUnsigned, SetUnsignedField, Sign, Redact, three re-parse paths, repeated accessors, builder reuse) with accessor-by-accessor comparison after every transition; hashed IDs compared with an independent reference (refevent); one-field differential pairs",
+         "Every proto-event of the alphabet is built and driven through every edit sequence up to the depth bound on the real code; identity is compared with a reference hash computed from independent redaction/canonical-JSON code.",
+         "sha256/ed25519 trusted; contents limited to the menu", "4/C03"),
 }
 pending = {}
 props = [json.loads(l) for l in open('/verif/properties.jsonl')]
